@@ -70,7 +70,7 @@ func TestVerifReadSideProbe(t *testing.T) {
 	opts.SnappyEnabled, opts.DeflateEnabled = true, true
 	opts.TLSCert = filepath.Join(certDir, "server.pem")
 	opts.TLSKey = filepath.Join(certDir, "server.key")
-	_, _, nsqd := mustStartNSQD(opts)
+	_, _, nsqd := vfStartNSQD(opts)
 	defer nsqd.Exit()
 	depth := func(topic string) int64 {
 		tp := nsqd.GetTopic(topic)
